@@ -76,6 +76,8 @@ def render(sc, tmp):
         lines.append("[socket:s%d]" % i)
         if kind == 'unix':
             lines.append("path = %s/s%d.sock" % (tmp, i))
+        elif kind == 'unix-dgram':
+            lines += ["path = %s/s%d.sock" % (tmp, i), "type = SOCK_DGRAM"]
         else:
             lines += ["host = 127.0.0.1", "port = 0"]
         lines.append("")
@@ -417,7 +419,7 @@ def run_scenario(sc):
                     'processes %r of this scenario survive the daemon' % (
                         _token_procs(sc["token"]),)))
             for i, kind in enumerate(sc.get("sockets", [])):
-                if kind == 'unix' and os.path.exists(
+                if kind.startswith('unix') and os.path.exists(
                         os.path.join(tmp, 's%d.sock' % i)):
                     viols.append(Violation(
                         'C08:live:unix-socket-file-left',
@@ -452,7 +454,8 @@ def strategy(always_restart=False):
 
     @st.composite
     def sc(draw):
-        socks = draw(st.lists(st.sampled_from(['inet', 'unix']), max_size=2))
+        socks = draw(st.lists(st.sampled_from(
+            ['inet', 'unix', 'unix-dgram']), max_size=2))
         ws = []
         for i in range(draw(st.integers(1, 2))):
             w = {"name": "w%d" % i,
